@@ -291,6 +291,23 @@ def r13_option_combinators(body, log, with_map=False):
     return body
 
 
+def r15_io_error_guards(body, log, io_variant='Io'):
+    """R15: `Err(e) if e.kind() == io::ErrorKind::K => A, Err(e) => return Err(e.into()),` -> nested match
+    on `e.kind()` (definition of match guards; `e.into()` written as the explicit From variant)."""
+    pat = re.compile(r'Err\((\w+)\) if \1\.kind\(\) == (?:std::)?io::ErrorKind::(\w+) => ([^,\n]+),([ \t]*//[^\n]*)?\n([ \t]*)Err\(\1\) => return Err\(\1(\.into\(\))?\),')
+    n = len(pat.findall(body))
+    if n:
+        def rep(m):
+            e, kind, act, cmt, ind, into = m.groups()
+            act = act.strip()
+            act_stmt = act if act.endswith('}') else act + ';'
+            err = f"WalError::{io_variant}({e})" if into else e
+            return (f"Err({e}) => {{ match {e}.kind() {{ IoKind::{kind} => {{ {act_stmt} }}, IoKind::Other => {{ return Err({err}); }} }} }},{cmt or ''}")
+        body = pat.sub(rep, body)
+        log.append(f"R15 guard arm `Err(e) if e.kind() == K => A, Err(e) => return Err(e.into())` -> nested match ({n}x)")
+    return body
+
+
 def r18_vec_set(body, log):
     pat = re.compile(r'(?m)^([ \t]*)(' + PATH + r')\[([^\]\n]+)\] = ([^;\n]+);')
     n = len(pat.findall(body))
@@ -493,6 +510,10 @@ def extract_fn(repo, fnspec):
         body = r8_guards(body, log, set(fnspec.get('dropped_fields', [])))
     if 'R13' in rules or 'R13m' in rules:
         body = r13_option_combinators(body, log, with_map='R13m' in rules)
+    if 'R15' in rules:
+        body = r15_io_error_guards(body, log)
+    if 'R18' in rules:
+        body = r18_vec_set(body, log)
     for d in fnspec.get('directives', []):
         k = d['kind']
         if k == 'opaque':
@@ -503,24 +524,27 @@ def extract_fn(repo, fnspec):
         elif k == 'insert':
             anchor = d.get('after') or d.get('before')
             n = body.count(anchor)
-            if n != 1:
-                raise ExtractError(f"ghost-insert anchor lost: {anchor!r} matched {n}x")
-            pos = body.index(anchor)
+            nth = int(d.get('nth', 0))
+            expect = int(d.get('of', 1)) if not nth else int(d.get('of', n))
+            if n == 0 or (not nth and n != 1) or (nth and (nth > n or n != expect)):
+                raise ExtractError(f"ghost-insert anchor lost: {anchor!r} matched {n}x (nth={nth or 1}, expected {expect})")
+            pos = -1
+            for _ in range(nth or 1):
+                pos = body.index(anchor, pos + 1)
             if d.get('after'):
                 pos += len(anchor)
                 body = body[:pos] + '\n' + d['text'] + body[pos:]
             else:
                 ls = body.rfind('\n', 0, pos) + 1
                 body = body[:ls] + d['text'] + '\n' + body[ls:]
-            log.append(f"ghost text inserted {'after' if d.get('after') else 'before'} `{anchor}`")
+            log.append(f"ghost text inserted {'after' if d.get('after') else 'before'} `{anchor}`" + (f" (occurrence {nth})" if nth else ''))
     if fnspec.get('generics'):
         for pair in fnspec['generics'].split(','):
             t, ty = pair.split(':')
             body = re.sub(r'\b' + re.escape(t) + r'\b', ty, body)
             sig = re.sub(r'\b' + re.escape(t) + r'\b(?!\s*:)', ty, sig)
             log.append(f"R5 generic {t} monomorphised at {ty}")
-    if 'R18' in rules:
-        body = r18_vec_set(body, log)
+
     body, nloops = splice_loops(body, fnspec.get('loops', {}), log)
     sig2 = rewrite_signature(sig, fnspec.get('ret'), receiver_mut=('R8' in rules),
                              drop_generics=bool(fnspec.get('generics')), log=log)
